@@ -18,6 +18,7 @@ import IocProofs.Lemmas.ScanCode
 import IocProofs.Lemmas.TagScanLink
 import IocProofs.Lemmas.SemSmall
 import IocProofs.Lemmas.SemProcessors
+import IocProofs.Lemmas.SemArgs
 namespace Ioc.C11
 open Ioc Ioc.Scan
 
@@ -430,7 +431,7 @@ theorem C11_scanShape_is_code_level (path : List Bytes) (sh : Shape) :
 theorem C11_code_tagScan (d : TSD) (fs : List Nat) (nm : String) (w : TW) :
     ∃ w', run (tsPrims d fs) Progs.scan_PostProcessDefinitionRegistry [.ref 0 2, .ref 0 3, .str nm] w = some (.nil, w') ∧
       w'.metaProps = w.metaProps ++
-        fs.filterMap (fun i => (recogS d i).map fun r => SP.applyReq d ⟨i, d.nodeType, r.1, r.2, false⟩) :=
+        fs.filterMap (fun i => (recogS d i).map fun r => TSProp.applyReq d ⟨i, d.nodeType, r.1, r.2, false⟩) :=
   tagScan_sem d fs nm w
 
 /-- the recognition rule of one field, as the regenerated lines 21-35 decide it -/
@@ -533,5 +534,16 @@ theorem C11_code_loggerProperties (ps : List Sem.LProp) (n : Nat) (w : List (Nat
         w ++ ((List.range' 0 n).filter (fun i => (Sem.lpropAt ps i).isLoggerTag && (Sem.lpropAt ps i).implements)).map
                (fun i => (i, Sem.loggerPref (Sem.lpropAt ps i)))) :=
   Sem.loggerProperties_sem ps n w
+
+/-- "with the tag's value and arguments": the arguments a processor asks for are compared EXACTLY (Has / isIntersect,
+    regenerated, `C19_code_Find_Has`, `C19_code_isIntersect`): an argument value matches only itself, not another spelling or
+    letter case of it -/
+theorem C11_code_args_exact (o : Sem.StrOps) (k : String) (wants : List String) (w : Sem.AM) (a b : List String) :
+    Go.run (Sem.argPrims o) Progs.arg_Has [.str k, Sem.strsVal wants] w =
+      some (.bool (match Sem.amGet (o.fmtKey k) w with
+                   | none => false
+                   | some l => wants.isEmpty || l.any (fun x => wants.contains x)), w) ∧
+    Go.run Sem.noPrims Progs.arg_isIntersect [Sem.strsVal a, Sem.strsVal b] () = some (.bool (a.any (fun x => b.contains x)), ()) :=
+  ⟨Sem.argHas_sem o k wants w, Sem.argIsIntersect_sem a b⟩
 
 end Ioc.C11
